@@ -107,6 +107,9 @@ def install():
                     "jump": np.array(stochastic_path.jump_path, dtype=float, copy=True),
                     "tag": getattr(stochastic_path, "verif_tag", None),
                 }
+                dr = getattr(stochastic_path, "drift", None)
+                if dr is not None:
+                    rec["drift"] = np.array(dr, dtype=float, copy=True)
             except Exception as e:  # a path object of unknown shape: keep the object itself
                 rec = {"serial": len(wd.samples), "run": wd.run_index, "level": wd.level, "ctx": wd.current.name,
                        "obj": stochastic_path, "err": repr(e)}
